@@ -218,17 +218,29 @@ def run_group(group, repo=None, trace=False):
             return res
         cur = gb1
     if group.enforce or group.replace or group.loop_contracts:
-        gi = ["goto-instrument", "--dfcc", group.entry]
-        if group.enforce:
-            gi += ["--enforce-contract", group.enforce]
-        for r in group.replace:
-            gi += ["--replace-call-with-contract", r]
-        if group.loop_contracts:
-            gi += ["--apply-loop-contracts"]
-        if group.nondet_static:
-            gi += ["--nondet-static"]
-        gi += [cur, gb2]
-        rc, out, _ = _run(gi, 600, 10, log)
+        replace = list(group.replace)
+        for _attempt in range(len(replace) + 1):
+            gi = ["goto-instrument", "--dfcc", group.entry]
+            if group.enforce:
+                gi += ["--enforce-contract", group.enforce]
+            for r in replace:
+                gi += ["--replace-call-with-contract", r]
+            if group.loop_contracts:
+                gi += ["--apply-loop-contracts"]
+            if group.nondet_static:
+                gi += ["--nondet-static"]
+            gi += [cur, gb2]
+            rc, out, _ = _run(gi, 600, 10, log)
+            # goto-instrument aborts when asked to replace a function the (changed) code no longer calls: drop that callee and retry --
+            # a contract that is never used cannot matter to the proof
+            m = re.search(r"Function to replace '(\w+)' not found", out)
+            if rc != 0 and m and m.group(1) in replace:
+                replace.remove(m.group(1))
+                if os.path.exists(gb2):
+                    os.remove(gb2)
+                continue
+            break
+        res["replaced"] = replace
         if rc != 0 or not os.path.exists(gb2):
             tail = [l for l in out.strip().splitlines() if l.strip()][-3:]
             res["reason"] = "goto-instrument --dfcc failed: " + " | ".join(tail)
